@@ -211,8 +211,10 @@ impl ServerCertVerifier for CustomCertVerifier {
                 Ok(ServerCertVerified::assertion())
             }
 
-            Err(rustls::Error::InvalidCertificate(rustls::CertificateError::NotValidForName))
-                if self.accept_invalid_hostnames =>
+            // Recent versions of rustls report a name mismatch as `NotValidForNameContext`.
+            Err(rustls::Error::InvalidCertificate(
+                rustls::CertificateError::NotValidForName | rustls::CertificateError::NotValidForNameContext { .. },
+            )) if self.accept_invalid_hostnames =>
             {
                 Ok(ServerCertVerified::assertion())
             }
